@@ -263,10 +263,7 @@ func afterDecode(framed []byte, t byte) (fails []explore.ClauseFail) {
 				fail("forwardable", "the decoder admitted the will but it cannot be encoded as a PUBLISH: %v", err)
 			}
 		}
-		buf := make([]byte, p.Len())
-		if _, err := p.Encode(buf); err != nil {
-			fail("forwardable", "the decoder admitted the CONNECT but it cannot be encoded again: %v", err)
-		}
+		// (the CONNECT itself is never forwarded: whether it can be encoded again is not part of the property)
 	}
 	return
 }
